@@ -22,8 +22,9 @@ def entry(pid, theorems, parts, extra_assumptions=()):
             "assumptions": [MODEL_NOTE, PARTIAL] + list(extra_assumptions), "trusted_base": SIM_TRUST}
 
 PROPS = {
-    "C01": entry("C01", ["c01_outcome_once", "c01_finish_needs_start", "c01_terminal_is_final", "c01_core_forgets", "c01_core_ignores_unknown"],
-                 [job(["ev", "tasks", "job"], ["c01."]), core(["cb", "t"], ["c01."])]),
+    "C01": entry("C01", ["c01_outcome_once", "c01_finish_needs_start", "c01_terminal_is_final", "c01_core_forgets", "c01_core_ignores_unknown",
+                         "c01_core_forgets_reachable"],
+                 [job(["ev", "tasks", "job"], ["c01."]), core(["cb", "t"], ["c01.", "core.hyp"])]),
     "C02": entry("C02", ["c02_submit_ids", "c02_auto_ids_agree"],
                  [job(["core", "live", "resp", "tasks"], ["c02."]), core(["t", "q", "flag"], ["c02."])],
                  ["progress ('eventually terminal') depends on HiGHS returning an optimal solution and on the fair drain; monitored at rest "
@@ -38,14 +39,21 @@ PROPS = {
                  ["c03_restart assumes the recorded state is closed under failure propagation at the cut (DepClosed): the server writes "
                   "TasksAborted for all dependents before the TaskFailed that caused them and one TasksCanceled per cancel; validated on "
                   "every run on journals the real server persists in simulated cluster runs, restored at every record boundary"]),
-    "C05": entry("C05", ["c05_reserve_exact", "c05_release_restores"],
-                 [core(["msg", "w", "rd", "t", "q"], ["c05."])]),
+    "C05": entry("C05", ["c05_reserve_exact", "c05_release_restores", "c05_inv_partial", "c05_resinv_reachable", "c05_free_le_total",
+                         "c05_f29_witness", "c05_reject_witness"],
+                 [core(["msg", "w", "rd", "t", "q"], ["c05.", "core.hyp"])],
+                 ["c05_inv_partial / c05_resinv_reachable: the resource equation free + sum(reserved) = total is an inductive invariant of EVERY "
+                  "operation of the core model under decidable side conditions (StepHyp: fresh worker record, request names a resource once, "
+                  "Reject comes from the assigned worker, QueueOkD / RdIn / SolMnOk before a scheduling round; NoSaturation: a Running / "
+                  "RunningPrefilled of a Prefilled or Retracting task fits the free vector); the compiled model evaluates every side condition "
+                  "on the pre-state of every operation of every real trace (model-side monitor c05.hyp): all hold on the unchanged tree except "
+                  "NoSaturation, whose failure is finding F29 (c05_f29_witness shows it cannot be dropped)"]),
     "C06": entry("C06", ["c06_retracting_lost_increments"],
                  [core(["msg", "t", "rd", "w"], ["c06."])]),
     "C07": entry("C07", ["c07_crash_decision", "c07_unlimited_never_fails", "c07_stop_is_no_crash", "c07_job_layer"],
                  [core(["cb", "t", "q", "msg"], ["c07."]), job(["ev", "tasks", "job", "ret"], ["c07."])]),
-    "C08": entry("C08", ["c08_all_terminal", "c08_idempotent", "c08_other_jobs", "c08_core_forgets"],
-                 [job(["ev", "resp", "tasks", "job", "live"], ["c08."]), core(["msg", "t", "w", "q", "rd", "cb"], ["c08."])]),
+    "C08": entry("C08", ["c08_all_terminal", "c08_idempotent", "c08_other_jobs", "c08_core_forgets", "c08_core_forgets_reachable"],
+                 [job(["ev", "resp", "tasks", "job", "live"], ["c08."]), core(["msg", "t", "w", "q", "rd", "cb"], ["c08.", "core.hyp"])]),
     "C09": entry("C09", ["c09_open_close_no_panic", "c09_forget_no_panic", "c09_cancel_no_panic"],
                  [job(["ev", "resp", "ret", "core", "job", "tasks", "live"], ["c09."]),
                   core(["msg", "cb", "flag", "t", "w", "q", "rd"], ["c09."])],
